@@ -492,3 +492,327 @@ Proof.
   { apply IH; [apply ev_wf_app in W; tauto | apply (no_clobber_prefix _ _ NC)]. }
   destruct e as [K0|K1 l1]; [apply represents_open | apply represents_line]; assumption.
 Qed.
+
+(* ------------------------------------------------------------------------------------------- *)
+(* the events of a well-nested token list are well formed *)
+Definition stack_in (o : list key) (stk : key) : Prop := forall pre X, stk = pre ++ X -> X <> [] -> In X o.
+
+Lemma opens_lines stk ls : opens (map (EvLine stk) ls) = [].
+Proof. induction ls; cbn; auto. Qed.
+Lemma ev_wf_lines o stk ls : In stk o -> ev_wf o (map (EvLine stk) ls).
+Proof. intros H. induction ls; cbn; auto. Qed.
+
+Lemma events_wf : forall ts names o,
+  balanced_from names ts = true -> stack_in o (names ++ [root_name]) -> ev_wf o (events ts (names ++ [root_name])).
+Proof.
+  induction ts as [|tok ts IH]; intros names o Hb HS; [exact I|].
+  assert (Hin : In (names ++ [root_name]) o) by (apply (HS []); [reflexivity|destruct names; discriminate]).
+  destruct tok as [n|n|tx]; cbn in Hb; cbn [events].
+  - cbn [ev_wf]. split; [exists n, (names ++ [root_name]); auto|].
+    apply (IH (n :: names)); [assumption|].
+    intros pre X E HX. destruct pre as [|m pre]; cbn in E.
+    + left. congruence.
+    + right. injection E as _ E. apply (HS pre X); assumption.
+  - destruct names as [|top below]; [discriminate|]. destruct (bytes_eqb top n); [|discriminate].
+    cbn [app tl]. apply IH; [assumption|]. intros pre X E HX. apply (HS (top :: pre) X); [cbn; rewrite E; reflexivity|assumption].
+  - apply ev_wf_app. split; [apply ev_wf_lines; assumption|]. rewrite opens_lines. cbn [rev app]. apply IH; assumption.
+Qed.
+
+Lemma stack_in_root : stack_in [[root_name]] ([] ++ [root_name]).
+Proof.
+  intros pre X E HX. destruct pre as [|m pre]; cbn in E.
+  - left. assumption.
+  - injection E as _ E. destruct pre; destruct X; cbn in E; try discriminate. contradiction.
+Qed.
+
+Lemma balanced_events_wf ts : balanced ts = true -> ev_wf [[root_name]] (events ts [root_name]).
+Proof. intros B. apply (events_wf ts [] _ B stack_in_root). Qed.
+
+(* ------------------------------------------------------------------------------------------- *)
+(* parse: the whole document or an error *)
+Definition doc_events (bs : bytes) : list event := events (raw_tokens bs) [root_name].
+
+Theorem parse_whole_or_error : forall bs t, parse bs = Ok t ->
+  raw_status bs = Clean /\ balanced (raw_tokens bs) = true /\ short_lines (raw_tokens bs) /\ t = run_events (doc_events bs).
+Proof.
+  intros bs t H. unfold parse in H. destruct (raw_status bs); try discriminate.
+  destruct (balanced (raw_tokens bs)) eqn:B; [|discriminate].
+  apply conf_loop_ok_events in H. destruct H as [-> HS]. repeat split; assumption.
+Qed.
+
+Theorem parse_accepts : forall bs,
+  raw_status bs = Clean -> balanced (raw_tokens bs) = true -> short_lines (raw_tokens bs) ->
+  parse bs = Ok (run_events (doc_events bs)).
+Proof.
+  intros bs HC HB HS. unfold parse. rewrite HC, HB. apply (conf_loop_events _ init_store [] HB HS).
+Qed.
+
+Theorem parse_error_cases : forall bs,
+  (exists t, parse bs = Ok t) \/ parse bs = Unmodelled \/ parse bs = Err 1 \/ parse bs = Err 3.
+Proof.
+  intros bs. unfold parse. destruct (raw_status bs); auto.
+  destruct (balanced (raw_tokens bs)) eqn:B; auto.
+  destruct (conf_loop_balanced (raw_tokens bs) init_store [] B) as [[r H]|H]; cbn [app] in H; rewrite H; eauto.
+Qed.
+
+Theorem parse_represents : forall bs t, parse bs = Ok t -> no_clobber (doc_events bs) -> represents t (doc_events bs).
+Proof.
+  intros bs t H NC. apply parse_whole_or_error in H. destruct H as (_ & B & _ & ->).
+  apply run_events_represents; [apply balanced_events_wf; assumption|assumption].
+Qed.
+
+(* the loop before the repair does not have this property: the rest of the document after "a&b" is dropped *)
+
+Definition old_witness : bytes := raw "<a>
+k1=v1
+k2=a&b
+k3=v3
+</a>"%hex.
+Definition old_result : store := match parse_old old_witness with Ok t => t | _ => [] end.
+Theorem parse_old_refuted : exists bs t, parse_old bs = Ok t /\ no_clobber (doc_events bs) /\ ~ represents t (doc_events bs).
+Proof.
+  exists old_witness, old_result. split; [vm_compute; reflexivity|]. split.
+  - intros K l Hin Hk HL.
+    assert (E : doc_events old_witness = [EvOpen [[97]; root_name]; EvLine [[97]; root_name] [107; 49; 61; 118; 49];
+        EvLine [[97]; root_name] [107; 50; 61; 97; 38; 98]; EvLine [[97]; root_name] [107; 51; 61; 118; 51]]) by (vm_compute; reflexivity).
+    rewrite E in Hin, HL. clear E.
+    destruct Hin as [Hin|[Hin|[Hin|[Hin|[]]]]]; try discriminate; injection Hin as <- <-;
+      (destruct HL as [HL|[HL|[]]]; vm_compute in HL; discriminate).
+  - intros R. pose proof (rep_key _ _ R [[97]; root_name] [107; 51]) as H.
+    assert (H1 : [107; 51] <> ([] : bytes)) by discriminate.
+    assert (H2 : assigns (doc_events old_witness) [[97]; root_name] [107; 51] <> []) by (vm_compute; discriminate).
+    specialize (H H1 H2). vm_compute in H. discriminate.
+Qed.
+
+(* ------------------------------------------------------------------------------------------- *)
+(* the tokenizer on rendered documents *)
+Ltac chars := unfold is_ent_char, is_name_char, is_name_start, is_xml_blank, is_letter, is_digit, in_range, is_ctrl,
+  c_lt, c_gt, c_amp, c_semi, c_slash, c_eq, c_hash, c_rb, c_cr, c_nl, c_tab, c_sp, c_colon, c_bang, c_qm in *.
+
+Lemma ent_char_facts b : is_ent_char b = true -> (b =? c_semi) = false /\ b < 128.
+Proof. chars. lia. Qed.
+Lemma name_char_facts b : is_name_char b = true ->
+  (b =? c_colon) = false /\ (b =? c_gt) = false /\ (b =? c_slash) = false /\ is_xml_blank b = false /\ b < 128.
+Proof. chars. lia. Qed.
+Lemma name_start_facts b : is_name_start b = true ->
+  (b =? c_slash) = false /\ (b =? c_qm) = false /\ (b =? c_bang) = false /\ (b =? c_colon) = false /\ is_name_char b = true /\ b < 128.
+Proof. chars. lia. Qed.
+Lemma blank_facts b : is_xml_blank b = true ->
+  is_name_char b = false /\ (b =? c_colon) = false /\ (b =? c_gt) = false /\ (b =? c_slash) = false /\ b < 128.
+Proof. chars. lia. Qed.
+
+Notation B := Build_lstate.
+Definition flushed (t : bytes) (o : list token) : list token := match t with [] => o | t' => TText (frev t') :: o end.
+
+Lemma lex_ent_chars : forall raw acc t p q o,
+  Forall (fun b => is_ent_char b = true) raw ->
+  fold_left lex_step raw (B (MEnt acc) t p q o Clean) = B (MEnt (rev raw ++ acc)) t p q o Clean.
+Proof.
+  induction raw as [|b raw IH]; intros acc t p q o HF; [reflexivity|].
+  inversion HF as [|? ? Hb HF']; subst. destruct (ent_char_facts _ Hb) as [H1 _].
+  cbn [fold_left]. unfold lex_step at 2. cbn [mode]. rewrite H1, Hb. unfold set_mode. cbn [mode txt b0 b1 out st].
+  rewrite IH by assumption. cbn [rev]. rewrite <- app_assoc. reflexivity.
+Qed.
+
+Lemma lex_atom a t p q o : atom_ok q a ->
+  exists p', fold_left lex_step (atom_bytes a) (B MText t p q o Clean) = B MText (atom_char a :: t) p' (atom_last a) o Clean.
+Proof.
+  destruct a as [c|raw c| |]; cbn [atom_ok atom_bytes atom_char atom_last].
+  - intros (H1 & H2 & H3 & H4 & H5 & H6 & H7). exists q.
+    cbn [fold_left]. unfold lex_step, text_step. cbn [mode b0 b1].
+    assert (E1 : (p =? c_rb) && (q =? c_rb) && (c =? c_gt) = false) by (chars; lia).
+    assert (E2 : (c =? c_lt) = false) by (chars; lia).
+    assert (E3 : (c =? c_amp) = false) by (chars; lia).
+    assert (E4 : (c =? c_cr) = false) by (chars; lia).
+    assert (E5 : (q =? c_cr) && (c =? c_nl) = false) by (chars; lia).
+    rewrite E1, E2, E3, E4. cbn [b1]. rewrite E5, H5. reflexivity.
+  - intros (H1 & H2 & H3). exists 0.
+    cbn [fold_left]. rewrite fold_left_app.
+    assert (E0 : lex_step (B MText t p q o Clean) c_amp = B (MEnt []) t p q o Clean).
+    { unfold lex_step, text_step. cbn [mode b0 b1].
+      replace (c_amp =? c_gt) with false by reflexivity. rewrite andb_false_r. reflexivity. }
+    rewrite E0, lex_ent_chars by assumption. rewrite app_nil_r. cbn [fold_left].
+    unfold lex_step. cbn [mode]. replace (c_semi =? c_semi) with true by reflexivity.
+    rewrite frev_rev, rev_involutive, H2, H3. reflexivity.
+  - intros _. exists q. cbn [fold_left]. unfold lex_step, text_step. cbn [mode b0 b1].
+    replace (c_cr =? c_gt) with false by reflexivity. rewrite andb_false_r. reflexivity.
+  - intros _. exists c_cr. cbn [fold_left]. unfold lex_step, text_step. cbn [mode b0 b1].
+    replace (c_cr =? c_gt) with false by reflexivity. rewrite andb_false_r. cbn.
+    rewrite andb_false_r. reflexivity.
+Qed.
+
+Lemma lex_atoms : forall l t p q o, atoms_ok q l ->
+  exists p' q', fold_left lex_step (text_bytes l) (B MText t p q o Clean) = B MText (rev (text_chars l) ++ t) p' q' o Clean.
+Proof.
+  induction l as [|a l IH]; intros t p q o H.
+  - exists p, q. reflexivity.
+  - destruct H as [Ha Hl]. destruct (lex_atom a t p q o Ha) as [p1 E1].
+    destruct (IH (atom_char a :: t) p1 (atom_last a) o Hl) as (p' & q' & E2).
+    exists p', q'. unfold text_bytes in *. cbn [map concat]. rewrite fold_left_app, E1, E2.
+    unfold text_chars. cbn [map rev]. rewrite <- app_assoc. reflexivity.
+Qed.
+
+Lemma lex_lt t p q o : lex_step (B MText t p q o Clean) c_lt = B MLt [] 0 0 (flushed t o) Clean.
+Proof.
+  unfold lex_step, text_step. cbn [mode b0 b1]. replace (c_lt =? c_gt) with false by reflexivity.
+  rewrite andb_false_r. replace (c_lt =? c_lt) with true by reflexivity.
+  unfold set_mode, flush, flushed. cbn [mode txt b0 b1 out st]. destruct t; reflexivity.
+Qed.
+
+Lemma lex_start_name_chars : forall r acc t p q o,
+  Forall (fun b => is_name_char b = true) r ->
+  fold_left lex_step r (B (MStartName acc) t p q o Clean) = B (MStartName (rev r ++ acc)) t p q o Clean.
+Proof.
+  induction r as [|b r IH]; intros acc t p q o HF; [reflexivity|].
+  inversion HF as [|? ? Hb HF']; subst.
+  cbn [fold_left]. unfold lex_step at 2. cbn [mode]. rewrite Hb. unfold set_mode. cbn [mode txt b0 b1 out st].
+  rewrite IH by assumption. cbn [rev]. rewrite <- app_assoc. reflexivity.
+Qed.
+Lemma lex_end_name_chars : forall r acc t p q o,
+  Forall (fun b => is_name_char b = true) r ->
+  fold_left lex_step r (B (MEndName acc) t p q o Clean) = B (MEndName (rev r ++ acc)) t p q o Clean.
+Proof.
+  induction r as [|b r IH]; intros acc t p q o HF; [reflexivity|].
+  inversion HF as [|? ? Hb HF']; subst.
+  cbn [fold_left]. unfold lex_step at 2. cbn [mode]. rewrite Hb. unfold set_mode. cbn [mode txt b0 b1 out st].
+  rewrite IH by assumption. cbn [rev]. rewrite <- app_assoc. reflexivity.
+Qed.
+Lemma lex_start_ws : forall ws n t p q o, ws_ok ws ->
+  fold_left lex_step ws (B (MStartWs n) t p q o Clean) = B (MStartWs n) t p q o Clean.
+Proof.
+  induction ws as [|b ws IH]; intros n t p q o HF; [reflexivity|].
+  inversion HF as [|? ? Hb HF']; subst. cbn [fold_left]. unfold lex_step at 2. cbn [mode]. rewrite Hb. apply IH. assumption.
+Qed.
+Lemma lex_end_ws : forall ws n t p q o, ws_ok ws ->
+  fold_left lex_step ws (B (MEndWs n) t p q o Clean) = B (MEndWs n) t p q o Clean.
+Proof.
+  induction ws as [|b ws IH]; intros n t p q o HF; [reflexivity|].
+  inversion HF as [|? ? Hb HF']; subst. cbn [fold_left]. unfold lex_step at 2. cbn [mode]. rewrite Hb. apply IH. assumption.
+Qed.
+
+(* after the name of a start tag: optional blanks, then [tail] = ">" or "/>" *)
+Lemma lex_start_tail name ws o : ws_ok ws ->
+  fold_left lex_step (ws ++ [c_gt]) (B (MStartName (rev name)) [] 0 0 o Clean) = B MText [] 0 0 (TStart name :: o) Clean
+  /\ fold_left lex_step (ws ++ [c_slash; c_gt]) (B (MStartName (rev name)) [] 0 0 o Clean) = B MText [] 0 0 (TEnd name :: TStart name :: o) Clean.
+Proof.
+  intros HW. destruct ws as [|b ws].
+  - cbn [app fold_left]. unfold lex_step. cbn [mode]. rewrite frev_rev, rev_involutive. split; reflexivity.
+  - inversion HW as [|? ? Hb HW']; subst. destruct (blank_facts _ Hb) as (F1 & F2 & F3 & F4 & _).
+    cbn [app fold_left].
+    assert (E : lex_step (B (MStartName (rev name)) [] 0 0 o Clean) b = B (MStartWs name) [] 0 0 o Clean).
+    { unfold lex_step. cbn [mode]. rewrite F1, F2, F3, F4, Hb, frev_rev, rev_involutive. reflexivity. }
+    rewrite E, !fold_left_app, lex_start_ws by assumption. split; reflexivity.
+Qed.
+
+Lemma lex_end_tail name ws o : ws_ok ws ->
+  fold_left lex_step (ws ++ [c_gt]) (B (MEndName (rev name)) [] 0 0 o Clean) = B MText [] 0 0 (TEnd name :: o) Clean.
+Proof.
+  intros HW. destruct ws as [|b ws].
+  - cbn [app fold_left]. unfold lex_step. cbn [mode]. rewrite frev_rev, rev_involutive. reflexivity.
+  - inversion HW as [|? ? Hb HW']; subst. destruct (blank_facts _ Hb) as (F1 & F2 & F3 & F4 & _).
+    cbn [app fold_left].
+    assert (E : lex_step (B (MEndName (rev name)) [] 0 0 o Clean) b = B (MEndWs name) [] 0 0 o Clean).
+    { unfold lex_step. cbn [mode]. rewrite F1, F2, F3, Hb, frev_rev, rev_involutive. reflexivity. }
+    rewrite E, fold_left_app, lex_end_ws by assumption. reflexivity.
+Qed.
+
+Lemma lex_piece_tag pc t p q o : piece_ok pc -> is_text pc = false ->
+  fold_left lex_step (piece_bytes pc) (B MText t p q o Clean) = B MText [] 0 0 (rev (piece_tokens pc) ++ flushed t o) Clean.
+Proof.
+  destruct pc as [l|n ws|n ws|n ws]; intros HP HT; try discriminate; destruct HP as [HN HW];
+    destruct n as [|c r]; try contradiction; destruct HN as [Hc Hr];
+    destruct (name_start_facts _ Hc) as (G1 & G2 & G3 & G4 & G5 & _); cbn [piece_bytes piece_tokens rev app fold_left]; rewrite lex_lt.
+  - assert (E : lex_step (B MLt [] 0 0 (flushed t o) Clean) c = B (MStartName [c]) [] 0 0 (flushed t o) Clean).
+    { unfold lex_step. cbn [mode]. rewrite G1, G2, G3, G4, Hc. reflexivity. }
+    rewrite E, fold_left_app, lex_start_name_chars by assumption.
+    replace (rev r ++ [c]) with (rev (c :: r)) by reflexivity. apply (lex_start_tail (c :: r) ws _ HW).
+  - cbn [fold_left].
+    assert (E0 : lex_step (B MLt [] 0 0 (flushed t o) Clean) c_slash = B MLtSlash [] 0 0 (flushed t o) Clean) by reflexivity.
+    assert (E : lex_step (B MLtSlash [] 0 0 (flushed t o) Clean) c = B (MEndName [c]) [] 0 0 (flushed t o) Clean).
+    { unfold lex_step. cbn [mode]. rewrite Hc. reflexivity. }
+    rewrite E0, E, fold_left_app, lex_end_name_chars by assumption.
+    replace (rev r ++ [c]) with (rev (c :: r)) by reflexivity. apply (lex_end_tail (c :: r) ws _ HW).
+  - assert (E : lex_step (B MLt [] 0 0 (flushed t o) Clean) c = B (MStartName [c]) [] 0 0 (flushed t o) Clean).
+    { unfold lex_step. cbn [mode]. rewrite G1, G2, G3, G4, Hc. reflexivity. }
+    rewrite E, fold_left_app, lex_start_name_chars by assumption.
+    replace (rev r ++ [c]) with (rev (c :: r)) by reflexivity. apply (lex_start_tail (c :: r) ws _ HW).
+Qed.
+
+Lemma text_chars_nonnil l : l <> [] -> text_chars l <> [].
+Proof. destruct l; [contradiction|discriminate]. Qed.
+
+Lemma lex_pieces : forall ps t p q o,
+  Forall piece_ok ps -> no_adjacent_text ps ->
+  (match ps with pc :: _ => is_text pc = true -> t = [] /\ q = 0 | [] => True end) ->
+  exists t' p' q' o', fold_left lex_step (render ps) (B MText t p q o Clean) = B MText t' p' q' o' Clean
+     /\ rev (flushed t' o') = rev (flushed t o) ++ tokens_of ps.
+Proof.
+  induction ps as [|pc ps IH]; intros t p q o HP HA HT.
+  - exists t, p, q, o. split; [reflexivity|]. cbn. rewrite app_nil_r. reflexivity.
+  - inversion HP as [|? ? Hpc HP']; subst.
+    assert (HA' : no_adjacent_text ps) by (destruct ps; [exact I|apply HA]).
+    unfold render, tokens_of in *. cbn [map concat]. rewrite fold_left_app.
+    destruct (is_text pc) eqn:T.
+    + destruct pc as [l| | |]; try discriminate. destruct Hpc as [Hne Hok].
+      destruct (HT eq_refl) as [-> ->].
+      destruct (lex_atoms l [] p 0 o Hok) as (p1 & q1 & E1). cbn [piece_bytes]. rewrite E1.
+      destruct (IH (rev (text_chars l) ++ []) p1 q1 o HP' HA') as (t' & p' & q' & o' & E2 & E3).
+      { destruct ps as [|pc2 ps]; [exact I|]. destruct HA as [HA _]. cbn in HA. intros H. rewrite H in HA. discriminate. }
+      exists t', p', q', o'. split; [exact E2|]. rewrite E3. cbn [piece_tokens app flushed rev].
+      rewrite app_nil_r. destruct (rev (text_chars l)) as [|c r] eqn:ER.
+      * exfalso. apply (text_chars_nonnil l Hne). apply (f_equal (@rev _)) in ER. rewrite rev_involutive in ER. exact ER.
+      * cbn [flushed rev]. rewrite <- ER, frev_rev, rev_involutive, <- app_assoc. reflexivity.
+    + rewrite (lex_piece_tag pc t p q o Hpc T).
+      destruct (IH [] 0 0 (rev (piece_tokens pc) ++ flushed t o) HP' HA') as (t' & p' & q' & o' & E2 & E3).
+      { destruct ps; [exact I|]. intros _. split; reflexivity. }
+      exists t', p', q', o'. split; [exact E2|]. rewrite E3. cbn [flushed].
+      rewrite rev_app_distr, rev_involutive, <- app_assoc. reflexivity.
+Qed.
+
+Lemma atoms_ascii : forall l prev, atoms_ok prev l -> Forall (fun c => c < 128) (text_bytes l).
+Proof.
+  induction l as [|a l IH]; intros prev H; [constructor|]. destruct H as [Ha Hl].
+  unfold text_bytes in *. cbn [map concat]. apply Forall_app. split; [|apply (IH _ Hl)].
+  destruct a as [c|raw c| |]; cbn in *.
+  - constructor; [tauto|constructor].
+  - destruct Ha as (HF & _). constructor; [chars; lia|]. apply Forall_app. split; [|constructor; [chars; lia|constructor]].
+    eapply Forall_impl; [|exact HF]. intros b Hb. apply (ent_char_facts _ Hb).
+  - constructor; [chars; lia|constructor].
+  - repeat constructor; chars; lia.
+Qed.
+
+Lemma piece_ascii pc : piece_ok pc -> Forall (fun c => c < 128) (piece_bytes pc).
+Proof.
+  assert (NM : forall n, name_ok n -> Forall (fun c => c < 128) n).
+  { intros [|c r] H; [contradiction|]. destruct H as [Hc Hr]. constructor; [apply (name_start_facts _ Hc)|].
+    eapply Forall_impl; [|exact Hr]. intros b Hb. apply (name_char_facts _ Hb). }
+  assert (WS : forall ws, ws_ok ws -> Forall (fun c => c < 128) ws).
+  { intros ws H. eapply Forall_impl; [|exact H]. intros b Hb. apply (blank_facts _ Hb). }
+  destruct pc as [l|n ws|n ws|n ws]; cbn [piece_ok piece_bytes]; intros H.
+  - apply (atoms_ascii l 0). tauto.
+  - destruct H as [H1 H2]. constructor; [chars; lia|]. apply Forall_app. split; [auto|]. apply Forall_app. split; [auto|].
+    constructor; [chars; lia|constructor].
+  - destruct H as [H1 H2]. constructor; [chars; lia|]. constructor; [chars; lia|]. apply Forall_app. split; [auto|]. apply Forall_app. split; [auto|].
+    constructor; [chars; lia|constructor].
+  - destruct H as [H1 H2]. constructor; [chars; lia|]. apply Forall_app. split; [auto|]. apply Forall_app. split; [auto|].
+    repeat constructor; chars; lia.
+Qed.
+
+Lemma render_ascii ps : Forall piece_ok ps -> existsb (fun c => 128 <=? c) (render ps) = false.
+Proof.
+  intros HP. assert (HF : Forall (fun c => c < 128) (render ps)).
+  { induction HP as [|pc ps Hpc HP IH]; [constructor|]. unfold render in *. cbn [map concat]. apply Forall_app. split; [apply piece_ascii; assumption|assumption]. }
+  induction HF as [|c r Hc HF IH]; [reflexivity|]. cbn [existsb]. rewrite IH. destruct (128 <=? c) eqn:E; [lia|reflexivity].
+Qed.
+
+Theorem lex_rendered ps : Forall piece_ok ps -> no_adjacent_text ps ->
+  raw_tokens (render ps) = tokens_of ps /\ raw_status (render ps) = Clean.
+Proof.
+  intros HP HA.
+  destruct (lex_pieces ps [] 0 0 [] HP HA) as (t' & p' & q' & o' & E & ET).
+  { destruct ps; [exact I|]. intros _. split; reflexivity. }
+  unfold raw_tokens, raw_status, lex_run, lex_init. rewrite render_ascii by assumption. rewrite E.
+  unfold lex_finish. cbn [mode]. split.
+  - rewrite frev_rev. cbn in ET. rewrite <- ET. unfold flush, flushed. cbn [out txt]. destruct t'; reflexivity.
+  - reflexivity.
+Qed.
